@@ -972,6 +972,7 @@ func main() {
 
 	f := newFake()
 	viper.Set("config_endpoint", "consul://"+f.addrs[envLid])
+	histSetup()
 
 	// which key does the code use? one ungated call tells
 	{
@@ -1010,6 +1011,12 @@ func main() {
 					panic(err)
 				}
 				cases = append(cases, runEnv(f, in.State0, in.Clock0, in.Steps, kinds[i]))
+			case strings.HasPrefix(kinds[i], "hist"):
+				var in histInput
+				if err := json.Unmarshal(raw, &in); err != nil {
+					panic(err)
+				}
+				cases = append(cases, runHist(f, in, kinds[i]))
 			case kinds[i] == "file-serial":
 				var in fileInput
 				if err := json.Unmarshal(raw, &in); err != nil {
@@ -1029,9 +1036,13 @@ func main() {
 		}
 	} else {
 		rg := gen.NewRand(o.Seed)
-		rSched, rHost, rEnv, rFile := rg.Fork(), rg.Fork(), rg.Fork(), rg.Fork()
+		rSched, rHost, rEnv, rFile, rHist := rg.Fork(), rg.Fork(), rg.Fork(), rg.Fork(), rg.Fork()
 		for _, c := range corpus() {
 			cases = append(cases, runSched(f, c.clock0, c.k, c.steps, nil, 0, "sched-corpus"))
+		}
+		// every START attempt draws a fresh number: histories of starts on real environments
+		for _, h := range histCorpus() {
+			cases = append(cases, runHist(f, h, "hist-corpus"))
 		}
 		// regression of C07-a: the file-backend race (a duplicate is monitor code 6)
 		cases = append(cases, runFileStress(8, 200, 25))
@@ -1043,10 +1054,11 @@ func main() {
 			f0 := c.file0
 			cases = append(cases, runFileSerial(&f0, c.k))
 		}
-		nSched := o.N * 50 / 100
-		nHost := o.N * 10 / 100
-		nEnv := o.N * 22 / 100
-		nFile := o.N - nSched - nHost - nEnv
+		nSched := o.N * 42 / 100
+		nHost := o.N * 8 / 100
+		nEnv := o.N * 18 / 100
+		nHist := o.N * 16 / 100
+		nFile := o.N - nSched - nHost - nEnv - nHist
 		for i := 0; i < nSched; i++ {
 			k := 1 + rSched.Intn(8)
 			if rSched.Chance(1, 3) {
@@ -1078,6 +1090,9 @@ func main() {
 		for i := 0; i < nEnv; i++ {
 			state0, steps := genEnvSteps(rEnv)
 			cases = append(cases, runEnv(f, state0, uint64(rEnv.Intn(60)), steps, "env"))
+		}
+		for i := 0; i < nHist; i++ {
+			cases = append(cases, runHist(f, genHist(rHist), "hist"))
 		}
 		for i := 0; i < nFile; i++ {
 			var file0 *string
